@@ -1,11 +1,21 @@
 import MoneroModel.Model.AmountArith
+import MoneroModel.Drv.C18
 open Monero
 /-! # C18 — amount arithmetic is exact or refuses; it never wraps
 
-Statements are over mathematical integers; operands range over the whole of u64 / i64 (`TyU64.fits`, `TyI64.fits`).
-The model's delegation structure is regenerated from src/util/amount.rs on every run, so these theorems are
-re-checked against what the code says now: binding `checked_add` to `wrapping_add`, or `+` to `checked_sub`, makes
-them fail. -/
+Statements are over mathematical integers; operands range over the whole of u64 / i64 (`TyU64.fits`, `TyI64.fits`; the two
+ranges are pinned to their literals by `C18_ranges_are_u64_i64`).
+What is regenerated from src/util/amount.rs on every run is the DELEGATION structure of the five checked methods, the five operators
+and the five assigning operators of each type (30 `Gen.u_*` / `Gen.s_*` rows): binding `checked_add` to `wrapping_add`, or `+` to
+`checked_sub`, changes a row and makes the theorems fail. A body the translator does not recognise (e.g. a plain `self.0 + rhs.0`,
+for which `StdOp` has no constructor) falls back to the REVIEWED row with an EXTRACT-NOTE; for such a body the theorems speak about
+the reviewed structure and the tie to the code is the differential grid alone.
+The remaining bodies — `to_signed`, `to_unsigned`, `positive_sub`, `checked_abs`, `abs`, `signum` (and `as_pico`, `from_pico`,
+`is_negative`, `max_value`, which they go through) — are HAND models: the theorems about them (`C18_to_signed`, …, `C18_signum`) are
+facts about the Lean definitions of `Model/AmountArith.lean`, tied to the Rust by the harness grid only. The translator reports
+whether each of these bodies still has the token shape quoted beside its model (`Gen.extracted_shape_*`, listed in the evidence);
+no theorem depends on that report: the second pass of the translator replaces a differing `Gen.shape_*` by the reviewed `true`
+(a restructured body is not a changed behaviour), so a statement `Gen.shape_* = true` can never fail and none is made here. -/
 namespace C18
 
 /-- the exact result of an arithmetic operation on integers (truncating division, as for machine integers) -/
@@ -187,11 +197,6 @@ theorem C18_positive_sub_total (a b : Int) : ∃ r, positiveSub a b = some r := 
   · exact ⟨none, rfl⟩
   · simp [amtChecked, genChecked, Gen.s_checked_sub]
 
-/-- the hand-modelled bodies still have the shape the model mirrors (checked by the translator on every run) -/
-theorem C18_reviewed_shapes : Gen.shape_Amount_to_signed = true ∧ Gen.shape_SignedAmount_to_unsigned = true ∧
-    Gen.shape_SignedAmount_positive_sub = true ∧ Gen.shape_SignedAmount_is_negative = true ∧
-    Gen.shape_SignedAmount_max_value = true := by decide
-
 /-! ## Added: totality for the signed type, closed forms, operators stated directly against `exact`, and a
 characterisation of `exact .div` / `exact .rem` that does not mention `Int.tdiv` / `Int.tmod` -/
 
@@ -362,19 +367,52 @@ theorem C18_checked_abs (a : Int) (ha : TyI64.fits a) (r : Int) :
     refine ⟨⟨fun e => (by cases e), fun e => absurd e.2 h⟩, ⟨fun _ => ?_, fun _ => rfl⟩⟩
     apply Classical.byContradiction; intro hne; exact h (hf.2 hne)
 
-/-- `abs` in a build with overflow checks (what the harness observes): `|a|`, or a panic exactly at `MIN`; and what the same
-body returns without overflow checks at `MIN`: `MIN` itself — a wrapped, negative "absolute value" (NOT covered by the list of
-operations of the property statement; recorded in the report of this group, not a theorem about the property) -/
-theorem C18_abs_model (a : Int) (ha : TyI64.fits a) :
-    (absOp a = .panic ↔ a = TyI64.lo) ∧ (a ≠ TyI64.lo → absOp a = .val (a.natAbs : Int)) ∧ absUnchecked TyI64.lo = TyI64.lo := by
-  have hfit : a ≠ TyI64.lo → TyI64.fits (a.natAbs : Int) := (i64_natAbs_fits a ha).2
-  refine ⟨?_, ?_, by decide⟩
-  · constructor
-    · intro h
-      apply Classical.byContradiction; intro hne
-      simp [absOp, checkedAbs, IntTy.chk, hfit hne] at h
-    · rintro rfl; decide
-  · intro hne; simp [absOp, checkedAbs, IntTy.chk, hfit hne]
+/-- **`abs` in a build WITH overflow checks** (the harness profile; Cargo's `dev` / `test` profiles): `|a|`, and at `MIN` — only
+there — the compiler-inserted overflow check panics (`attempt to negate with overflow`; observed by the harness op `amt_abs`, which
+prints that panic differently from a panic of the library). `abs` is a plain `i64::abs`, not `expect` on `checked_abs`. -/
+theorem C18_abs_checked_profile (a : Int) (ha : TyI64.fits a) :
+    (absPlain true a = .overflowPanic ↔ a = TyI64.lo) ∧ (a ≠ TyI64.lo → absPlain true a = .val (a.natAbs : Int)) := by
+  have hf := i64_natAbs_fits a ha
+  unfold absPlain
+  by_cases h : TyI64.fits (a.natAbs : Int)
+  · rw [if_pos h]
+    exact ⟨⟨fun e => (by cases e), fun e => absurd e (hf.1 h)⟩, fun _ => rfl⟩
+  · rw [if_neg h]
+    rw [if_pos rfl]
+    refine ⟨⟨fun _ => ?_, fun _ => rfl⟩, fun hne => absurd (hf.2 hne) h⟩
+    apply Classical.byContradiction; intro hne; exact h (hf.2 hne)
+
+/-- **`abs` in a build WITHOUT overflow checks** (Cargo's default `release` profile): `|a|` everywhere except at `MIN`, where it
+RETURNS `MIN` — a wrapped, negative value. This is the one function of the impl that can wrap; `abs` is not among the operations of
+the property statement, so the title "never wraps" is a statement about the listed operations (`C18_never_wraps`) and does NOT extend
+to `abs`. Recorded as an observation (DESIGN 14.10), not as a finding. The model `absPlain false` is validated against std's
+`i64::wrapping_abs` (= `abs` without overflow checks, per std's documentation of `abs`) by the harness op `amt_abs_nochk`; no build
+of the library without overflow checks is observed by the harness. -/
+theorem C18_abs_unchecked_profile (a : Int) (ha : TyI64.fits a) :
+    absPlain false a = .val (if a = TyI64.lo then TyI64.lo else (a.natAbs : Int)) ∧
+    (absPlain false TyI64.lo = .val TyI64.lo ∧ TyI64.lo < 0) := by
+  have hf := i64_natAbs_fits a ha
+  refine ⟨?_, by decide, by decide⟩
+  unfold absPlain
+  by_cases h : TyI64.fits (a.natAbs : Int)
+  · rw [if_pos h, if_neg (hf.1 h)]
+  · have hlo : a = TyI64.lo := by apply Classical.byContradiction; intro hne; exact h (hf.2 hne)
+    subst hlo; decide
+
+/-- `abs` and `checked_abs` side by side: wherever `checked_abs` returns a value, `abs` returns the same value in every profile;
+where it returns `None` (exactly at `MIN`, `C18_checked_abs`) `abs` panics with overflow checks and returns its argument without -/
+theorem C18_abs_vs_checked_abs (a : Int) (ha : TyI64.fits a) :
+    (∀ r, checkedAbs a = some r → ∀ p, absPlain p a = .val r) ∧
+    (checkedAbs a = none → absPlain true a = .overflowPanic ∧ absPlain false a = .val a) := by
+  constructor
+  · intro r hr p
+    simp only [checkedAbs, IntTy.chk] at hr
+    by_cases h : TyI64.fits (a.natAbs : Int)
+    · rw [if_pos h] at hr; cases hr; simp only [absPlain, if_pos h]
+    · rw [if_neg h] at hr; cases hr
+  · intro hn
+    have hlo := ((C18_checked_abs a ha 0).2).1 hn
+    subst hlo; decide
 
 /-- `signum` is the sign of the integer -/
 theorem C18_signum (a : Int) : signum a = Int.sign a := by
@@ -383,6 +421,26 @@ theorem C18_signum (a : Int) : signum a = Int.sign a := by
   · rw [if_neg (by omega), if_pos h, Int.sign_eq_neg_one_of_neg h]
   · subst h; rfl
   · rw [if_pos h, Int.sign_eq_one_of_pos h]
+
+/-- **the driver's spec column is the `exact` of these theorems.** `Drv.specArith` (Drv/C18.lean, written separately for the compiled
+driver) equals "`exact op a b` iff representable and the divisor is non-zero" — so "the grid agrees with the spec" and "the theorems
+are about the spec" refer to one object -/
+theorem C18_spec_column_is_exact (signed : Bool) (op : Arith) (a b : Int) :
+    Drv.specArith signed op a b =
+      if (tyOf signed).fits (exact op a b) ∧ (needsDivisor op = true → b ≠ 0) then some (exact op a b) else none := by
+  have ht : (if signed = true then TyI64 else TyU64) = tyOf signed := rfl
+  cases op <;> simp only [Drv.specArith, ht, exact, needsDivisor, IntTy.chk, Bool.false_eq_true, false_imp_iff, and_true, forall_const]
+  · by_cases h0 : b = 0
+    · simp [h0]
+    · simp [h0]
+  · by_cases h0 : b = 0
+    · simp [h0]
+    · simp [h0]
+
+/-- the two ranges every statement above is relative to are those of `u64` and `i64`, as literals (a wrong bound in `Model/StdInt.lean`
+would otherwise keep every theorem true and model = spec) -/
+theorem C18_ranges_are_u64_i64 :
+    TyU64.lo = 0 ∧ TyU64.hi = 18446744073709551615 ∧ TyI64.lo = -9223372036854775808 ∧ TyI64.hi = 9223372036854775807 := by decide
 
 example : ¬ remMinNeg1 false .rem 5 3 := by simp [remMinNeg1]
 example : amtOperator true .mul (2^62) 2 = some .panic := by decide
@@ -397,4 +455,6 @@ example : ¬ (∀ a b r, TyU64.fits a → TyU64.fits b →
   exact absurd this.1 (by decide)
 example : amtChecked false .add (2^64 - 1) 1 = some none := by decide
 example : amtChecked true .div (-(2^63)) (-1) = some none := by decide
+example : absPlain true (-(2^63)) = .overflowPanic ∧ absPlain false (-(2^63)) = .val (-(2^63)) ∧ absPlain false (-5) = .val 5 := by decide
+example : Drv.specArith true .rem (-7) 2 = some (-1) ∧ Drv.specArith false .sub 3 5 = none := by decide
 end C18
